@@ -118,7 +118,8 @@ def rewrite_source(fn_text, rewrites, extra=None):
             if toks[i].text == 'let' and (toks[i + 1].text == fname or (toks[i + 1].text == 'mut' and toks[i + 2].text == fname)):
                 j = i + (2 if toks[i + 1].text == fname else 3)
                 if toks[j].text == '=' and toks[j + 1].text == '|': d = (i, j + 1); break
-        if d is None: raise ExtractError('rewrite inline:%s: closure definition not found' % fname)
+        if d is None:
+            applied.append('inline:%s: no such local closure in the current text (nothing rewritten)' % fname); continue
         i_let, i_bar = d
         params = []; j = i_bar + 1
         while toks[j].text != '|':
